@@ -92,4 +92,13 @@ static int md_stub_serializePayload(const KSI_MetaData *t, unsigned char *buf, s
 	*buf_len = n;
 	return KSI_OK;
 }
+
+/* ---- model of "the nodes currently held by a builder" (insertNode / close / calculateHighestLevel) ----
+ * insertNode dereferences exactly one occupant, the one in slot `at`; the occupants of the other slots are
+ * only handed on to the recursive call.  The model therefore represents every occupied slot by ONE shared
+ * representative node object g_occ (slot i is NULL or &g_occ); contracts speak about all 256 slots through
+ * nondeterministic WITNESS indices chosen before the call (what holds for an arbitrary witness holds for all). */
+KSI_TreeNode g_occ;
+KSI_DataHash g_occ_hash;      /* hash object of the representative occupant */
+size_t g_w1, g_w2;            /* witness slot indices, g_w1 < g_w2 < 256 */
 #endif
